@@ -46,6 +46,10 @@ PROPS = {
         "lean_modules": ["C07"],
         "rule": "every arithmetic and comparison op x {safe, unsafe, reuse, incr, reuse aliasing the first / second operand, incr aliasing an operand} x {TT, TS, ST} x operand layouts as C06 x destination layouts {contiguous, sliced view, lazily transposed}; identity of the returned tensor and full dumps (elements + raw window) of result, every operand, the destination and the first parent after the call",
     },
+    "C09": {
+        "lean_modules": ["C09"],
+        "rule": "element types float32/float64/complex64/complex128 (trace: all sixteen; refusals: int, uint, bool, string, mismatched types) x products {Inner, MatVecMul, MatMul, Outer, Contract/TensorMul, Dot, Trace} x {package function, method}; operand shapes: vector forms (n), (n,1), (1,n) for n in 1..4, all matrices with dims 1..4, rank-3/4 tensors with dims <= 4; TensorMul with every valid single contraction axis pair for ranks 1..4 x 1..4, pairs of axes and no axes, invalid axes; Dot over the full rank table 0..4 x 0..4; every pair of operand layouts {contiguous, lazily transposed, offset slice, stepped slice, materialised} x {safe, reuse, incr}, a column-major block; destinations {fresh, same size other shape, wrong size, view, lazily transposed, other element type}; small-integer value sets so every sum is exact and the comparison is bit-exact in any accumulation order; result, operands, destination and parents of views are dumped after the call",
+    },
     "C11": {
         "lean_modules": ["C11"],
         "rule": "6 comparisons x all ordered (for eq/ne: all comparable, incl. bool, complex, string) element types x {TT, TS, ST} x {bool result, AsSameType, unsafe, bool reuse, same-type reuse} x operand layouts as C06, values with ties, NaN, extremes; refusals of unordered / mismatched types and shapes",
@@ -53,6 +57,10 @@ PROPS = {
     "C12": {
         "lean_modules": ["C12"],
         "rule": "15 unary operations (neg inv square cube exp tanh log log2 log10 sqrt cbrt invsqrt abs sign clamp) and Dense.Apply x 16 element types (accepted and refused ones) x {safe, unsafe, reuse, incr, reuse aliasing the operand} x operand/destination layouts as C06/C07; value sets with 0, negatives, extremes, NaN/Inf; the model's term is evaluated with the same Go maths routine the kernel names and compared bit-exactly",
+    },
+    "C14": {
+        "lean_modules": ["C14"],
+        "rule": "5 formats (gob, NumPy .npy, CSV, protobuf, flatbuffers) x 16 element types (accepted and refused ones) x shapes of rank 0-4 (scalars, length-one axes, row / column vectors) x layouts {contiguous, column-major raw, column-major converting, lazily transposed, lazily transposed column-major, non-contiguous slice, stepped slice, contiguous row view, materialised, physically transposed} x masks {none, some, first row only, all, all clear} x value sets {distinct, extremes / NaN / Inf / -0}; one step encodes to a buffer and decodes into a new tensor (encode and decode outcomes reported separately), the decoded tensor and the source are dumped and compared logically (element type, shape, every element, mask by coordinate); the bytes WriteNpy produced are additionally parsed by an independent .npy reader in the harness; random chains of slice / T / Transpose / Clone / Materialize before the round trip, a second round trip on the decoded tensor, and a malformed stream",
     },
     "C16": {
         "lean_modules": ["C16"],
